@@ -29,6 +29,7 @@ import (
 
 type helperInfo struct {
 	sites []ssa.CallInstruction // every static call/go/defer site
+	seam  bool                  // reached through a seam variable: the sites were fixed by registerSeams
 }
 
 var (
@@ -159,6 +160,9 @@ func syncHelperCallee(i ssa.Instruction) *ssa.Function {
 	if f, ok := call.Call.Value.(*ssa.Function); ok && helperOf(f) != nil {
 		return f
 	}
+	if f := seamTarget(call.Call.Value); f != nil && helperOf(f) != nil {
+		return f
+	}
 	return nil
 }
 
@@ -166,15 +170,201 @@ func syncHelperCallee(i ssa.Instruction) *ssa.Function {
 func asyncHelperCallee(i ssa.Instruction) *ssa.Function {
 	switch x := i.(type) {
 	case *ssa.Go:
-		if f, ok := x.Call.Value.(*ssa.Function); ok && helperOf(f) != nil {
+		if f, ok := calleeFn(x.Call.Value); ok && helperOf(f) != nil {
 			return f
 		}
 	case *ssa.Defer:
-		if f, ok := x.Call.Value.(*ssa.Function); ok && helperOf(f) != nil {
+		if f, ok := calleeFn(x.Call.Value); ok && helperOf(f) != nil {
 			return f
 		}
 	}
 	return nil
+}
+
+// ---- seam variables ----
+//
+// A package-level variable of function type that is assigned exactly once, by its
+// initialiser, and is otherwise only called (`var timeNow = time.Now`, `var dialBackend =
+// func(...) {...}`: a seam for tests) names one function for the whole life of the
+// program as the build sees it (test files are not part of it). Calls through such a
+// variable are read as static calls of that function; when the function is a new function
+// literal it is a transparent helper whose call sites are the calls through the variable.
+
+var seamReg = map[*ssa.Global]*ssa.Function{}
+
+// exitWrappers: module functions that end the process on every path (a logger's Fatalf
+// that calls log.Fatal): a call of one is a process-terminating call. They are not
+// transparent — the call itself is what rules look at.
+var exitWrappers = map[*ssa.Function]bool{}
+
+var processExitCallees = []string{"log.Fatal", "log.Fatalf", "log.Fatalln", "log.Panic", "log.Panicf", "log.Panicln", "os.Exit", "runtime.Goexit",
+	"(*log.Logger).Fatal", "(*log.Logger).Fatalf", "(*log.Logger).Fatalln", "(*log.Logger).Panic", "(*log.Logger).Panicf", "(*log.Logger).Panicln", "syscall.Exit"}
+
+// IsExitCall: i terminates the process (or the goroutine, by panicking through the log
+// package): a call of one of the exit functions, or of a module function that always
+// reaches one.
+func IsExitCall(i ssa.Instruction) bool {
+	cc := CallOf(i)
+	if cc == nil {
+		return false
+	}
+	if IsCall(i, processExitCallees...) {
+		return true
+	}
+	if f, ok := calleeFn(cc.Value); ok && !cc.IsInvoke() {
+		helperMu.RLock()
+		defer helperMu.RUnlock()
+		return exitWrappers[f]
+	}
+	return false
+}
+
+// ExitCalls lists the process-terminating calls in fn (its own and those of transparent helpers).
+func ExitCalls(fn *ssa.Function) []ssa.Instruction {
+	var out []ssa.Instruction
+	seen := map[ssa.Instruction]bool{}
+	EachInstr(fn, func(i ssa.Instruction) {
+		if !seen[i] && IsExitCall(i) {
+			seen[i] = true
+			out = append(out, i)
+		}
+	})
+	return out
+}
+
+// seamTarget: the function a call through v reaches when v is a load of a seam variable.
+func seamTarget(v ssa.Value) *ssa.Function {
+	ld, ok := v.(*ssa.UnOp)
+	if !ok || ld.Op != token.MUL {
+		return nil
+	}
+	g, ok := ld.X.(*ssa.Global)
+	if !ok {
+		return nil
+	}
+	helperMu.RLock()
+	defer helperMu.RUnlock()
+	return seamReg[g]
+}
+
+func registerSeams(p *Prog) map[*ssa.Function][]ssa.CallInstruction {
+	type use struct {
+		stores []*ssa.Store
+		other  bool
+		calls  []ssa.CallInstruction
+	}
+	uses := map[*ssa.Global]*use{}
+	get := func(g *ssa.Global) *use {
+		if uses[g] == nil {
+			uses[g] = &use{}
+		}
+		return uses[g]
+	}
+	isSeamType := func(g *ssa.Global) bool {
+		if g.Pkg == nil {
+			return false
+		}
+		if _, mod := p.ModPkgs[g.Pkg.Pkg.Path()]; !mod {
+			return false
+		}
+		pt, ok := g.Type().Underlying().(*types.Pointer)
+		if !ok {
+			return false
+		}
+		_, isSig := pt.Elem().Underlying().(*types.Signature)
+		return isSig
+	}
+	for _, fn := range p.Funcs {
+		EachInstrRaw(fn, func(i ssa.Instruction) {
+			var ops []*ssa.Value
+			for _, op := range i.Operands(ops) {
+				if op == nil || *op == nil {
+					continue
+				}
+				g, ok := (*op).(*ssa.Global)
+				if !ok || !isSeamType(g) {
+					continue
+				}
+				u := get(g)
+				switch x := i.(type) {
+				case *ssa.Store:
+					if x.Addr == ssa.Value(g) {
+						u.stores = append(u.stores, x)
+					} else {
+						u.other = true
+					}
+				case *ssa.UnOp:
+					if x.Op != token.MUL {
+						u.other = true
+						break
+					}
+					for _, r := range Refs(x) {
+						if _, isDbg := r.(*ssa.DebugRef); isDbg {
+							continue
+						}
+						ci, isCall := r.(ssa.CallInstruction)
+						if !isCall || ci.Common().IsInvoke() || ci.Common().Value != ssa.Value(x) {
+							u.other = true
+							continue
+						}
+						used := false
+						for _, a := range ci.Common().Args {
+							if a == ssa.Value(x) {
+								used = true
+							}
+						}
+						if used {
+							u.other = true
+							continue
+						}
+						u.calls = append(u.calls, ci)
+					}
+				case *ssa.DebugRef:
+				default:
+					u.other = true
+				}
+			}
+		})
+	}
+	sites := map[*ssa.Function][]ssa.CallInstruction{}
+	targets := map[*ssa.Function]int{}
+	var regd []*ssa.Global
+	for g, u := range uses {
+		if u.other || len(u.stores) != 1 {
+			continue
+		}
+		st := u.stores[0]
+		if st.Parent() == nil || st.Parent().Name() != "init" || st.Parent().Parent() != nil {
+			continue
+		}
+		var tgt *ssa.Function
+		switch v := st.Val.(type) {
+		case *ssa.Function:
+			tgt = v
+		case *ssa.MakeClosure:
+			if len(v.Bindings) == 0 {
+				tgt, _ = v.Fn.(*ssa.Function)
+			}
+		}
+		if tgt == nil {
+			continue
+		}
+		helperMu.Lock()
+		seamReg[g] = tgt
+		helperMu.Unlock()
+		regd = append(regd, g)
+		targets[tgt]++
+		sites[tgt] = append(sites[tgt], u.calls...)
+		p.Aliases = append(p.Aliases, "calls through the package variable "+GlobalName(g)+" are calls of "+tgt.String()+" (assigned once, by its initialiser)")
+	}
+	p.regGlobals = append(p.regGlobals, regd...)
+	// a literal stored into two variables is not one helper
+	for t, n := range targets {
+		if n > 1 {
+			delete(sites, t)
+		}
+	}
+	return sites
 }
 
 // RegisterNewHelpers finds the transparent helpers of a loaded program.
@@ -182,7 +372,48 @@ func RegisterNewHelpers(p *Prog, pinned *Pinned) {
 	if pinned == nil || pinned.Pkgs == nil {
 		return
 	}
+	seamSites := registerSeams(p)
+	// named module types with a value converted to an interface somewhere in module code
+	boxedTypes := map[*types.Named]bool{}
+	for _, fn := range p.Funcs {
+		EachInstrRaw(fn, func(i ssa.Instruction) {
+			if mi, ok := i.(*ssa.MakeInterface); ok {
+				if n := recvNamed(mi.X.Type()); n != nil {
+					boxedTypes[n] = true
+				}
+			}
+		})
+	}
+	boxed := func(n *types.Named) bool { return n == nil || boxedTypes[n] }
+	for _, fn := range p.Funcs {
+		if fn.Parent() != nil || len(fn.Blocks) == 0 || fn.Name() == "main" || fn.Name() == "init" {
+			continue
+		}
+		always := false
+		EachInstrRaw(fn, func(i ssa.Instruction) {
+			if IsCall(i, processExitCallees...) && mustExecute(i) {
+				always = true
+			}
+		})
+		if always {
+			helperMu.Lock()
+			exitWrappers[fn] = true
+			helperMu.Unlock()
+			p.regFns = append(p.regFns, fn)
+			p.Aliases = append(p.Aliases, "a call of "+FuncName(fn)+" is a process-terminating call (it always reaches one)")
+		}
+	}
 	cand := map[*ssa.Function]*helperInfo{}
+	// function literals reached only through a seam variable
+	for t, ss := range seamSites {
+		if t.Parent() == nil || t.Parent().Name() != "init" || t.Parent().Parent() != nil || len(t.FreeVars) != 0 || len(t.Blocks) == 0 || len(ss) == 0 {
+			continue
+		}
+		if _, mod := p.ModPkgs[fnPkgPath(t)]; !mod {
+			continue
+		}
+		cand[t] = &helperInfo{sites: ss, seam: true}
+	}
 	for _, fn := range p.Funcs {
 		if fn.Parent() != nil || fn.Synthetic != "" {
 			continue
@@ -209,9 +440,14 @@ func RegisterNewHelpers(p *Prog, pinned *Pinned) {
 		// sites do not show (w.WriteHeader(…) from net/http): never transparent. Exported
 		// methods may satisfy any interface; unexported ones only interfaces of their package.
 		if sig := f.Type().(*types.Signature); sig.Recv() != nil {
-			if f.Exported() || ifaceDeclares(pk.Pkg, f.Name()) {
+			// … unless no value of the receiver type is ever converted to an interface in
+			// module code: then its methods can only be called statically
+			if (f.Exported() || ifaceDeclares(pk.Pkg, f.Name())) && boxed(recvNamed(sig.Recv().Type())) {
 				continue
 			}
+		}
+		if exitWrappers[fn] {
+			continue
 		}
 		cand[fn] = &helperInfo{}
 	}
@@ -240,7 +476,7 @@ func RegisterNewHelpers(p *Prog, pinned *Pinned) {
 			if ci, ok := i.(ssa.CallInstruction); ok {
 				callee = ci.Common().Value
 				if h, ok := callee.(*ssa.Function); ok && !ci.Common().IsInvoke() {
-					if info := cand[h]; info != nil {
+					if info := cand[h]; info != nil && !info.seam {
 						info.sites = append(info.sites, ci)
 					}
 				}
@@ -251,6 +487,16 @@ func RegisterNewHelpers(p *Prog, pinned *Pinned) {
 					continue
 				}
 				if h, ok := (*op).(*ssa.Function); ok && cand[h] != nil && *op != callee {
+					if cand[h].seam && i.Parent() == h.Parent() {
+						if _, isMk := i.(*ssa.MakeClosure); isMk {
+							continue // the literal's own creation in the initialiser
+						}
+						if st, isSt := i.(*ssa.Store); isSt {
+							if g, isG := st.Addr.(*ssa.Global); isG && seamReg[g] == h {
+								continue // … and its assignment to the seam variable
+							}
+						}
+					}
 					delete(cand, h) // address taken / passed as a value
 				}
 			}
@@ -297,7 +543,7 @@ func RegisterNewHelpers(p *Prog, pinned *Pinned) {
 		found := false
 		EachInstrRaw(from, func(i ssa.Instruction) {
 			if ci, ok := i.(ssa.CallInstruction); ok {
-				if h, ok := ci.Common().Value.(*ssa.Function); ok {
+				if h, ok := calleeFn(ci.Common().Value); ok {
 					if h == to || (cand[h] != nil && reaches(h, to, seen)) {
 						found = true
 					}
@@ -375,7 +621,7 @@ func helperParamArgs(prm *ssa.Parameter) []ssa.Value {
 
 // helperResult: the values a call of a new helper can yield for result idx.
 func helperResults(call *ssa.Call, idx int) []ssa.Value {
-	h, ok := call.Call.Value.(*ssa.Function)
+	h, ok := calleeFn(call.Call.Value)
 	if !ok || helperOf(h) == nil {
 		return nil
 	}
@@ -528,8 +774,11 @@ func Owner(i ssa.Instruction) *ssa.Function {
 func TopFunc(fn *ssa.Function) *ssa.Function {
 	for depth := 0; depth < 12 && fn != nil; depth++ {
 		if par := fn.Parent(); par != nil {
-			fn = par
-			continue
+			if info := helperOf(fn); info == nil || !info.seam {
+				fn = par
+				continue
+			}
+			// a literal behind a seam variable belongs to its callers, not to the initialiser
 		}
 		if isBoundWrapper(fn) {
 			if sites := boundSites(fn); len(sites) > 0 {
@@ -771,30 +1020,30 @@ func helperParamArgIn(prm *ssa.Parameter, top *ssa.Function) ssa.Value {
 	return nil
 }
 
-// helperParamArgIn: the argument bound to parameter prm of a new helper at its call
-// site(s) inside top (the function a rule looks at); nil unless there is exactly one.
-func helperParamArgIn(prm *ssa.Parameter, top *ssa.Function) ssa.Value {
-	fn := prm.Parent()
-	info := helperOf(fn)
-	if info == nil {
-		return nil
+func fnPkgPath(fn *ssa.Function) string {
+	if pk := fnPkg(fn); pk != nil {
+		return pk.Pkg.Path()
 	}
-	var out []ssa.Value
-	for k, x := range fn.Params {
-		if x != prm {
-			continue
-		}
-		for _, s := range info.sites {
-			if s.Parent() != top && TopFunc(s.Parent()) != top {
-				continue
-			}
-			if args := s.Common().Args; k < len(args) {
-				out = append(out, args[k])
-			}
-		}
+	return ""
+}
+
+// calleeFn: the function a call instruction's callee value denotes — a function, or the
+// function behind a seam variable.
+func calleeFn(v ssa.Value) (*ssa.Function, bool) {
+	if f, ok := v.(*ssa.Function); ok {
+		return f, true
 	}
-	if len(out) == 1 {
-		return out[0]
+	if f := seamTarget(v); f != nil {
+		return f, true
 	}
-	return nil
+	return nil, false
+}
+
+// recvNamed: the named type behind T or *T (nil otherwise).
+func recvNamed(t types.Type) *types.Named {
+	if p, ok := t.(*types.Pointer); ok {
+		t = p.Elem()
+	}
+	n, _ := t.(*types.Named)
+	return n
 }
